@@ -142,6 +142,8 @@ def _replay_emitted_item(ctx, i, item):
     if thin is not None and thin(inp) > 1 and n % thin(inp):
         return
     for a_i, letters in enumerate(alphabets):
+        if inp["engine"] == "hash" and any(ch not in AA for ch in letters):
+            continue            # the hash engine enumerates edits over the 20 amino-acid letters only (its documented domain)
         api = api_for(inp, n + a_i)
         bad, drift = nc.compare_case(doc, letters=letters, api=api)
         ctx.case(dict(kind="replay", call=describe(inp, letters, api), expect=doc["trip"]),
@@ -237,7 +239,8 @@ def judge_sessions(ctx, sessions, verdicts, classify=default_classify, lifted=No
                 and (s["inp"]["engine"] != "hash" or s["inp"]["k"] == 1) and not any(e["op"] == "Join" and e["raised"] for e in s["events"])
                 and sum(1 for e in s["events"] if e["op"] == "Join") == 1 and (not s["inp"]["two"] or len(s["inp"]["seqs2"]) <= 40)):
             lifted -= 1
-            lifted_big(ctx, s, classify, (1100, 1300, 2100)[lifted % 3])
+            from . import lifted as lf
+            lifted_big(ctx, s, classify, lf.boundary_size(lifted + ctx.seed + len(s["inp"]["seqs"])))
         for l, op, clause in api:
             ev = s["events"][l - 1]
             ctx.violation(classify(s["inp"], clause),
